@@ -111,7 +111,7 @@ def sibling_agreement(ctx, rule_b, rule_c, stages_too=True, only=None, which_sta
     for name, (body, ch) in pl.items():
         for st in ch:
             if st[0] in ("split", "strip"):
-                pats = U.array_variants(st[1][0]) if st[1] else None
+                pats = U.array_variants(st[1][0], ctx.facts) if st[1] else None
                 cls.setdefault(st[0], {})[name] = (pats, body)
     for stage in which_stages:
         d = cls.get(stage, {})
